@@ -1290,6 +1290,8 @@ package yqlib
 //@   modifies o.Kind, o.Tag, o.Value
 //@   ensures @null {C06} implies(value == nil, result == nil && o.Kind == ScalarNode && o.Tag == "!!null" && o.Value == "null")
 //@   ensures @strings-verbatim {C06} implies(istype(value, string), result == nil && o.Kind == ScalarNode && o.Tag == "!!str" && iface(o.Value) == value)
+//@   ensures @a-number-tagged-int-is-that-number {C06} implies(istype(value, float64) && o.Tag == "!!int", exists(k, o.Value == itoa(k) && rnd(k) == value.(float64)))
+//@   ensures @numbers-stay-numbers {C06} implies(istype(value, float64), result == nil && o.Kind == ScalarNode && (o.Tag == "!!int" || o.Tag == "!!float"))
 
 // ---------------------------------------------------------------------------------------------
 // operator_multiply.go: deep merge (C04) — the mechanism: merge into a fresh copy of the left operand, one
